@@ -813,3 +813,256 @@ func runR186(c *core.Ctx) {
 		}
 	}
 }
+
+// runR187: double buffering. The extractor retires the period record and puts a fresh one into service under the
+// exclusive lock. It must exchange the two ring buffers: the new primary is the old backup and the new backup is the
+// old primary (the one handed to the reader). If both end up being the same slice, the reader sorts the very ring the
+// observers of the next period are writing into.
+func runR187(c *core.Ctx) []*ssa.Function {
+	var extractors []*ssa.Function
+	c.Rule("R18.7", "the extractor exchanges the ring buffers: new primary buffer = old backup, new backup = old primary (the buffer handed to the reader is never the one observers write into next)", 1)
+	found := 0
+	for _, fn := range pkgFuncs(c, "metrics") {
+		if fn.Parent() != nil || len(fn.Params) != 1 {
+			continue
+		}
+		// stores into slice-typed fields of the parameter's struct (directly or inside a nested record)
+		type bufStore struct {
+			path  string
+			st    *ssa.Store
+			entry string
+		}
+		param := ssa.Value(fn.Params[0])
+		// rootedPath: a FieldAddr chain on the parameter -> field path
+		rootedPath := func(a ssa.Value) ([]string, bool) {
+			var path []string
+			for {
+				f, ok := a.(*ssa.FieldAddr)
+				if !ok {
+					break
+				}
+				n, _ := ssax.FieldName(f)
+				path = append([]string{n}, path...)
+				a = f.X
+			}
+			return path, a == param && len(path) > 0
+		}
+		var pstores []*ssa.Store
+		ssax.Instrs(fn, func(ins ssa.Instruction) {
+			if st, ok := ins.(*ssa.Store); ok {
+				if _, ok := rootedPath(st.Addr); ok {
+					pstores = append(pstores, st)
+				}
+			}
+		})
+		isPrefix := func(a, b []string) bool {
+			if len(a) > len(b) {
+				return false
+			}
+			for i := range a {
+				if a[i] != b[i] {
+					return false
+				}
+			}
+			return true
+		}
+		// resolve: which location's value at function entry does v (selected by rest) hold?
+		var resolve func(v ssa.Value, rest []string, depth int) string
+		resolve = func(v ssa.Value, rest []string, depth int) string {
+			if depth > 8 {
+				return "?"
+			}
+			v = ssax.Unwrap(v)
+			switch x := v.(type) {
+			case *ssa.Field:
+				n, _ := ssax.FieldName(x)
+				return resolve(x.X, append([]string{n}, rest...), depth+1)
+			case *ssa.UnOp:
+				if x.Op != token.MUL {
+					return "?"
+				}
+				if al, ok := x.X.(*ssa.Alloc); ok {
+					// a local record (composite literal or copy)
+					if len(rest) > 0 {
+						if vals := fieldStoreVals(x, rest[0]); len(vals) == 1 {
+							return resolve(vals[0], rest[1:], depth+1)
+						}
+					}
+					if sts := ssax.StoresTo(al); len(sts) == 1 {
+						return resolve(sts[0].Val, rest, depth+1)
+					}
+					return "?"
+				}
+				p, ok := rootedPath(x.X)
+				if !ok {
+					// a field of a local record: &local.f1.f2
+					var lp []string
+					a := x.X
+					for {
+						f, isF := a.(*ssa.FieldAddr)
+						if !isF {
+							break
+						}
+						n, _ := ssax.FieldName(f)
+						lp = append([]string{n}, lp...)
+						a = f.X
+					}
+					al, isAl := a.(*ssa.Alloc)
+					if !isAl || len(lp) == 0 {
+						return "?"
+					}
+					full := append(lp, rest...)
+					// stored field by field (composite literal)?
+					var direct []ssa.Value
+					for _, r := range *al.Referrers() {
+						if fa, ok := r.(*ssa.FieldAddr); ok {
+							if n, _ := ssax.FieldName(fa); n == full[0] {
+								for _, st := range ssax.StoresTo(fa) {
+									direct = append(direct, st.Val)
+								}
+							}
+						}
+					}
+					if len(direct) == 1 {
+						return resolve(direct[0], full[1:], depth+1)
+					}
+					if sts := ssax.StoresTo(al); len(sts) == 1 && len(direct) == 0 {
+						return resolve(sts[0].Val, full, depth+1)
+					}
+					return "?"
+				}
+				full := append(append([]string{}, p...), rest...)
+				// an earlier store through the parameter that overlaps the loaded location?
+				for _, s := range pstores {
+					q, _ := rootedPath(s.Addr)
+					if !(isPrefix(q, full) || isPrefix(full, q)) {
+						continue
+					}
+					if hit, _ := (ssax.Reach{Target: func(i ssa.Instruction) bool { return i == ssa.Instruction(x) }}).From(s); hit != nil {
+						if isPrefix(q, full) {
+							return resolve(s.Val, full[len(q):], depth+1)
+						}
+						return "?"
+					}
+				}
+				return strings.Join(full, ".")
+			}
+			return "?"
+		}
+		var stores []bufStore
+		for _, st := range pstores {
+			path, _ := rootedPath(st.Addr)
+			switch ty := st.Val.Type().Underlying().(type) {
+			case *types.Slice:
+				stores = append(stores, bufStore{strings.Join(path, "."), st, resolve(st.Val, nil, 0)})
+			case *types.Struct:
+				for i := 0; i < ty.NumFields(); i++ {
+					if _, isSl := ty.Field(i).Type().Underlying().(*types.Slice); isSl {
+						stores = append(stores, bufStore{strings.Join(append(append([]string{}, path...), ty.Field(i).Name()), "."), st, resolve(st.Val, []string{ty.Field(i).Name()}, 0)})
+					}
+				}
+			}
+		}
+		if len(stores) != 2 {
+			continue
+		}
+		found++
+		extractors = append(extractors, fn)
+		key := core.FuncName(fn) + "#buffers-exchanged"
+		a, b := stores[0], stores[1]
+		ok := a.entry == b.path && b.entry == a.path && a.path != b.path
+		c.Check(ok, "R18.7", key, c.P.Pos(fn.Pos()), fmt.Sprintf("%s <- old %s, %s <- old %s", a.path, a.entry, b.path, b.entry),
+			fmt.Sprintf("the ring buffers are not exchanged: %s <- old %s, %s <- old %s; afterwards the buffer handed to the reader and the buffer observers write into can be the same slice (percentiles are computed from a ring that is being overwritten)", a.path, a.entry, b.path, b.entry))
+	}
+	if found == 0 {
+		c.Undecided("R18.7", "metrics#extractor", "-", "no function exchanging two buffer fields of its parameter found")
+	}
+	return extractors
+}
+
+// runR188: the readers of the histograms are serialised. The extractor retires a ring buffer to its caller and re-arms
+// the buffer the previous reader was given; a second reader that runs the extractor while the first is still sorting
+// would put that very buffer back into service. Every chain of callers from an entry point of the package down to the
+// extractor therefore holds one package-level mutex exclusively (Lock, not RLock) at the call.
+func runR188(c *core.Ctx, extractors []*ssa.Function) {
+	c.Rule("R18.8", "histogram readers are serialised: every call chain from an entry point of the metrics package to the buffer-exchanging extractor holds a package-level mutex exclusively at the call", 1)
+	if len(extractors) == 0 {
+		c.Undecided("R18.8", "metrics#extractor", "-", "no extractor found")
+		return
+	}
+	fns := pkgFuncs(c, "metrics")
+	callers := func(target *ssa.Function) map[*ssa.Function][]ssa.Instruction {
+		out := map[*ssa.Function][]ssa.Instruction{}
+		for _, fn := range fns {
+			ssax.Instrs(fn, func(ins ssa.Instruction) {
+				if cc := ssax.CallOf(ins); cc != nil && cc.StaticCallee() == target {
+					out[fn] = append(out[fn], ins)
+				}
+			})
+		}
+		return out
+	}
+	for _, ex := range extractors {
+		// walk up; a chain is protected as soon as one call on it is made under an exclusive package-level lock
+		type item struct {
+			fn    *ssa.Function
+			chain []string
+		}
+		work := []item{{ex, []string{ex.Name()}}}
+		seen := map[*ssa.Function]bool{ex: true}
+		var bad []string
+		chains := 0
+		for len(work) > 0 {
+			it := work[0]
+			work = work[1:]
+			cs := callers(it.fn)
+			if len(cs) == 0 {
+				// an entry point reached without protection
+				chains++
+				bad = append(bad, strings.Join(it.chain, " <- ")+" (no exclusive package-level lock held anywhere on the chain)")
+				continue
+			}
+			var names []*ssa.Function
+			for f := range cs {
+				names = append(names, f)
+			}
+			sort.Slice(names, func(i, j int) bool { return names[i].Name() < names[j].Name() })
+			for _, f := range names {
+				held := ssax.HeldLocks(f)
+				for _, call := range cs[f] {
+					protected, sharedOnly := false, ""
+					for k, mode := range held[call] {
+						if !strings.Contains(k, ".") || strings.Contains(k, "(") {
+							continue // not a package-level variable
+						}
+						if mode == ssax.Exclusive {
+							protected = true
+						} else if mode == ssax.Shared {
+							sharedOnly = k
+						}
+					}
+					chain := append(append([]string{}, it.chain...), f.Name())
+					if protected {
+						chains++
+						continue
+					}
+					if sharedOnly != "" {
+						chains++
+						bad = append(bad, strings.Join(chain, " <- ")+" holds "+sharedOnly+" only in shared mode at "+c.P.Pos(call.Pos())+": several readers run the extractor at once")
+						continue
+					}
+					if !seen[f] {
+						seen[f] = true
+						work = append(work, item{f, chain})
+					}
+				}
+			}
+		}
+		key := "metrics." + ex.Name() + "#readers-serialised"
+		if chains == 0 {
+			c.Undecided("R18.8", key, c.P.Pos(ex.Pos()), "the extractor has no caller")
+			continue
+		}
+		c.Check(len(bad) == 0, "R18.8", key, c.P.Pos(ex.Pos()), fmt.Sprintf("%d call chain(s), each under an exclusive package-level lock", chains), strings.Join(uniq(bad), "; "))
+	}
+}
